@@ -3,7 +3,7 @@
 import functools as ft
 from typing import Any, Callable, Mapping, Optional, Type, cast
 
-from ..exc import ExecutionError
+from ..exc import CoercionError, ExecutionError, ResolverError
 from ..lang import ast as _ast
 from ..schema import ObjectType, Schema
 from ..utilities import coerce_variable_values
@@ -128,9 +128,15 @@ def create_source_event_stream(
     operation: _ast.OperationDefinition,
     initial_value: Optional[Any] = None,
 ) -> Any:
-    fields = executor.collect_fields(
-        root_type, operation.selection_set.selections
-    )
+    try:
+        fields = executor.collect_fields(
+            root_type, operation.selection_set.selections
+        )
+    except ResolverError as err:
+        # A `@skip` / `@include` condition of the root selection that cannot
+        # be evaluated: the subscription is refused like any other invalid
+        # subscription operation (cf. `execute`).
+        raise ExecutionError(str(err)) from err
 
     if len(fields) != 1:
         raise ExecutionError(
@@ -157,7 +163,12 @@ def create_source_event_stream(
         field_def, [key], root_type, nodes, executor.runtime, executor,
     )
 
-    coerced_args = executor.argument_values(field_def, node)
+    try:
+        coerced_args = executor.argument_values(field_def, node)
+    except CoercionError as err:
+        # Same for the arguments of the subscription field: no source stream
+        # can be created, the resolver is not called.
+        raise ExecutionError(str(err)) from err
 
     return field_def.subscription_resolver(
         initial_value, executor.context_value, info, **coerced_args
